@@ -32,6 +32,16 @@ impl WriteXml for Raw {
     }
 }
 
+/// payload whose serialisation fails half-way (after having written something)
+#[derive(Debug, Clone)]
+struct FailingRaw;
+impl WriteXml for FailingRaw {
+    fn write_xml<W: Write>(&self, writer: &mut Writer<W>) -> Result<(), WriteError> {
+        let _ = writer.get_mut().write_all(b"<half-written><x>");
+        Err(WriteError::Other("verif: payload writer failed".into()))
+    }
+}
+
 /// reply data read as text
 #[derive(Debug, Clone)]
 struct Txt(String);
@@ -654,6 +664,263 @@ fn c12(cases_path: &str, out: &mut dyn Write) {
     }
 }
 
+
+// ---------------------------------------------------------------------------------------------
+// C13: XML-equivalent serialisations
+
+use vh::xmlgen::{self, el, el_ns, tok, txt, with_attrs, Node, Style, FLAGS};
+
+fn err_node(k: usize, severity: &str) -> Node {
+    el(
+        "rpc-error",
+        vec![
+            tok("error-type", ERR_TYPES[k % 4]),
+            tok("error-tag", ERR_TAGS[k % 8]),
+            tok("error-severity", severity),
+            txt("error-path", "/a/b"),
+            txt("error-message", &format!("m{k}")),
+            el("error-info", vec![txt("bad-element", "route-filter")]),
+        ],
+    )
+}
+
+fn templates() -> Vec<(&'static str, &'static str, Node)> {
+    let reply = |kids: Vec<Node>| with_attrs(el("rpc-reply", kids), &[("message-id", "@ID@"), ("other", "x")]);
+    vec![
+        (
+            "hello",
+            "hello",
+            el(
+                "hello",
+                vec![
+                    el(
+                        "capabilities",
+                        vec![
+                            tok("capability", "urn:ietf:params:netconf:base:1.0"),
+                            tok("capability", "urn:ietf:params:netconf:capability:candidate:1.0"),
+                            tok("capability", "urn:ietf:params:netconf:capability:url:1.0?scheme=http,ftp,file"),
+                            tok("capability", JUNOS_CAP),
+                        ],
+                    ),
+                    tok("session-id", "4711"),
+                ],
+            ),
+        ),
+        ("reply-ok", "lock", reply(vec![el("ok", vec![])])),
+        ("reply-errors", "lock", reply(vec![err_node(1, "error"), err_node(2, "warning")])),
+        ("reply-data", "get", reply(vec![el("data", vec![el_ns("urn:example", "top", vec![el_ns("urn:example", "a", vec![Node::Text("1".into())])])])])),
+        ("reply-data-empty", "get", reply(vec![el("data", vec![])])),
+        ("reply-bare", "open-configuration", reply(vec![])),
+        ("load-ok", "load-configuration", reply(vec![el("load-configuration-results", vec![el("ok", vec![])])])),
+        (
+            "load-errors",
+            "load-configuration",
+            reply(vec![el("load-configuration-results", vec![err_node(1, "error"), tok("load-error-count", "1")])]),
+        ),
+        ("load-warning-ok", "load-configuration", reply(vec![el("load-configuration-results", vec![err_node(1, "warning"), el("ok", vec![])])])),
+    ]
+}
+
+/// The data of a <get> reply is handed out as a raw XML fragment; compare it by its XML
+/// information (element names, attributes sorted, text trimmed, comments dropped).
+fn canonical_fragment(raw: &str) -> String {
+    fn canon(e: &xmlgen::PElem, out: &mut String) {
+        let local = e.name.rsplit(':').next().unwrap_or(&e.name).to_string();
+        let mut attrs: Vec<(String, String)> = e.attrs.iter().filter(|(k, _)| !k.starts_with("xmlns")).cloned().collect();
+        attrs.sort();
+        out.push_str(&format!("<{local}{:?}>", attrs));
+        for k in &e.kids {
+            match k {
+                xmlgen::PNode::Elem(c) => canon(c, out),
+                xmlgen::PNode::Text(t) => out.push_str(t.trim()),
+            }
+        }
+        out.push_str("</>");
+    }
+    match xmlgen::parse_document(&format!("<w>{raw}</w>")) {
+        Ok(root) => {
+            let mut s = String::new();
+            canon(&root, &mut s);
+            s
+        }
+        Err(_) => format!("raw:{}", raw.split_whitespace().collect::<String>()),
+    }
+}
+
+/// digest of what the library made of one serialisation
+fn c13_digest(op: &str, doc: &str) -> String {
+    if op == "hello" {
+        return match WSess::with_hello(doc.to_string()) {
+            Err(e) => format!("err:{}", err_class(&e)),
+            Ok(ws) => {
+                let ctx = ws.session.context();
+                let mut caps: Vec<String> = ctx.server_capabilities().iter().map(|c| format!("{c:?}")).collect();
+                caps.sort();
+                format!("ok sid={} ver={} caps={}", ctx.session_id(), ctx.protocol_version(), caps.join(","))
+            }
+        };
+    }
+    let mut ws = WSess::with_caps(ALL_CAPS);
+    let doc = doc.to_string();
+    let reply = move |id: u64| Some(doc.replace("@ID@", &id.to_string()));
+    macro_rules! go {
+        ($ty:ty, $build:expr, $fmt:expr) => {{
+            let (_sent, r) = call_rpc!(ws, $ty, $build, reply);
+            match r {
+                Err(why) => format!("harness:{why}"),
+                Ok(Ok(v)) => format!("ok {}", $fmt(v)),
+                Ok(Err(netconf::Error::RpcError(errs))) => format!("rpcerror {}", errs.iter().map(|e| format!("{e:?}")).collect::<Vec<_>>().join("|")),
+                Ok(Err(e)) => format!("err:{}", err_class(&e)),
+            }
+        }};
+    }
+    match op {
+        "lock" => go!(Lock, |b| b.target(Datastore::Running)?.finish(), |_v: ()| String::new()),
+        "get" => go!(Get, |b| b.filter(None).finish(), |v: Opaque| canonical_fragment(&v.to_string())),
+        "open-configuration" => go!(OpenConfiguration, |b| b.ephemeral(Some("inst")).finish(), |_v: ()| String::new()),
+        "load-configuration" => go!(
+            LoadConfiguration<_>,
+            |b| b.source(Config::new(Raw("<configuration/>".into()), Xml, Merge)).finish(),
+            |_v: ()| String::new()
+        ),
+        _ => "unknown".into(),
+    }
+}
+
+fn c13(cases_path: &str, out: &mut dyn Write) {
+    // cases: {"cases": [[flag,...], ...]} (subsets of rewrites, enumerated by TLC)
+    let v: Value = serde_json::from_str(&std::fs::read_to_string(cases_path).unwrap()).unwrap();
+    let subsets: Vec<Vec<String>> = v["cases"].as_array().unwrap().iter().map(strs).collect();
+    for (name, op, tree) in templates() {
+        let digest = |flags: &[String]| -> String {
+            let doc = xmlgen::render(&tree, &Style::from_flags(flags));
+            std::panic::catch_unwind(|| c13_digest(op, &doc)).unwrap_or_else(|_| "panic".into())
+        };
+        let base = digest(&[]);
+        let singles: Vec<(String, bool)> = FLAGS.iter().map(|f| (f.to_string(), digest(&[f.to_string()]) != base)).collect();
+        for (k, flags) in subsets.iter().enumerate() {
+            let d = digest(flags);
+            let single_fail: Vec<String> = singles.iter().filter(|(f, bad)| *bad && flags.contains(f)).map(|(f, _)| f.clone()).collect();
+            writeln!(
+                out,
+                "{}",
+                json!({"ev": "c13", "case": k, "tmpl": name, "op": op, "flags": flags, "digest": d, "base": base, "single_fail": single_fail,
+                       "doc": xmlgen::render(&tree, &Style::from_flags(flags)).chars().take(400).collect::<String>()})
+            )
+            .unwrap();
+        }
+    }
+}
+
+// ---------------------------------------------------------------------------------------------
+// C10: serialised requests are well-formed and carry the caller's values unchanged
+
+fn class_text(c: &str) -> &'static str {
+    match c {
+        "plain" => "ab1",
+        "lt" => "<",
+        "gt" => ">",
+        "amp" => "&",
+        "quot" => "\"",
+        "apos" => "'",
+        "delim" => "]]>]]>",
+        "nonascii" => "\u{e9}\u{6f22}",
+        "space" => " x ",
+        _ => "",
+    }
+}
+
+fn c10(cases_path: &str, out: &mut dyn Write) {
+    use netconf::message::rpc::operation::junos::load_configuration::{Json, Set, Text};
+    let v: Value = serde_json::from_str(&std::fs::read_to_string(cases_path).unwrap()).unwrap();
+    for (k, c) in v["cases"].as_array().unwrap().iter().enumerate() {
+        let param = c["param"].as_str().unwrap().to_string();
+        let classes = strs(&c["classes"]);
+        let value: String = classes.iter().map(|c| class_text(c)).collect();
+        let r = std::panic::catch_unwind(|| {
+            let mut ws = WSess::with_caps(ALL_CAPS);
+            let before = ws.ctl.sent_len();
+            let noreply = |_id: u64| -> Option<String> { None };
+            let val = value.clone();
+            macro_rules! go {
+                ($ty:ty, $build:expr) => {{
+                    let (sent, r) = call_rpc!(ws, $ty, $build, noreply);
+                    (sent, match r { Err(why) => why, _ => String::new() })
+                }};
+            }
+            // (element or attribute to read the value back from, is the value an XML fragment?)
+            let (sent, local, locate, fragment): (bool, String, &str, bool) = match param.as_str() {
+                "persist" => { let (s, l) = go!(Commit, move |b| b.confirmed(true)?.persist(Some(Token::new(&val)))?.finish()); (s, l, "persist", false) }
+                "persist-id" => { let (s, l) = go!(Commit, move |b| b.persist_id(Some(Token::new(&val)))?.finish()); (s, l, "persist-id", false) }
+                "cancel-persist-id" => { let (s, l) = go!(CancelCommit, move |b| b.persist_id(Some(Token::new(&val)))?.finish()); (s, l, "persist-id", false) }
+                "log" => { let (s, l) = go!(CommitConfiguration, move |b| b.with_log_message(&val).finish()); (s, l, "log", false) }
+                "log-after-failed-write" => {
+                    // a request whose payload cannot be serialised must leave nothing behind for the next one
+                    let (s0, _l0) = go!(EditConfig<FailingRaw>, |b| b.target(Datastore::Candidate)?.config(FailingRaw).finish());
+                    if s0 {
+                        (true, "failed request was sent".to_string(), "log", false)
+                    } else {
+                        let (s, l) = go!(CommitConfiguration, move |b| b.with_log_message(&val).finish());
+                        (s, l, "log", false)
+                    }
+                }
+                "instance" => { let (s, l) = go!(OpenConfiguration, move |b| b.ephemeral(Some(&val)).finish()); (s, l, "ephemeral-instance", false) }
+                "xpath" => { let (s, l) = go!(GetConfig<Opaque>, move |b| b.source(Datastore::Running)?.filter(Some(Filter::XPath(val)))?.finish()); (s, l, "@select", false) }
+                "xpath-get" => { let (s, l) = go!(Get, move |b| b.filter(Some(Filter::XPath(val))).finish()); (s, l, "@select", false) }
+                "url-edit" => { let (s, l) = go!(EditConfig<Raw>, move |b| b.target(Datastore::Candidate)?.url(format!("file:///cfg/{val}?a=1&b={val}"))?.finish()); (s, l, "url", false) }
+                "url-delete" => { let (s, l) = go!(DeleteConfig, move |b| b.url(format!("http://h.example/p/{val}?x={val}&y=2"))?.finish()); (s, l, "url", false) }
+                "text-config" => { let (s, l) = go!(LoadConfiguration<_>, move |b| b.source(Config::new(val, Text, Merge)).finish()); (s, l, "configuration-text", false) }
+                "json-config" => { let (s, l) = go!(LoadConfiguration<_>, move |b| b.source(Config::new(val, Json, Merge)).finish()); (s, l, "configuration-json", false) }
+                "set-config" => { let (s, l) = go!(LoadConfiguration<_>, move |b| b.source(Config::new(val, Text, Set)).finish()); (s, l, "configuration-set", false) }
+                "subtree-filter" => { let f = format!("<top k=\"{}\">{}</top>", xml_escape(&val), xml_escape(&val)); let (s, l) = go!(Get, move |b| b.filter(Some(Filter::Subtree(f))).finish()); (s, l, "top", true) }
+                "edit-fragment" => { let f = format!("<top k=\"{}\">{}</top>", xml_escape(&val), xml_escape(&val)); let (s, l) = go!(EditConfig<Raw>, move |b| b.target(Datastore::Candidate)?.config(Raw(f)).finish()); (s, l, "top", true) }
+                "copy-fragment" => { let f = format!("<top k=\"{}\">{}</top>", xml_escape(&val), xml_escape(&val)); let (s, l) = go!(CopyConfig, move |b| b.target(Datastore::Candidate)?.config(f).finish()); (s, l, "top", true) }
+                _ => (false, "local:unknown-param".into(), "", false),
+            };
+            let mut ev = json!({"sent": sent, "local": local.chars().take(100).collect::<String>()});
+            if sent {
+                let _ = before;
+                let wire = String::from_utf8_lossy(ws.ctl.sent().last().unwrap()).to_string();
+                let ndelim = wire.matches(EOM).count();
+                ev["delims"] = json!(ndelim);
+                ev["delim_at_end"] = json!(wire.ends_with(EOM));
+                let body = wire.strip_suffix(EOM).unwrap_or(&wire);
+                match xmlgen::parse_document(body) {
+                    Err(why) => {
+                        ev["wellformed"] = json!(false);
+                        ev["why"] = json!(why);
+                        ev["recovered"] = json!("");
+                    }
+                    Ok(root) => {
+                        ev["wellformed"] = json!(true);
+                        let rec = if let Some(attr) = locate.strip_prefix('@') {
+                            root.find("filter").and_then(|f| f.attr(attr)).map(String::from)
+                        } else {
+                            root.find(locate).map(|e| if fragment { format!("{}|{}", e.attr("k").unwrap_or("?"), e.text()) } else { e.text() })
+                        };
+                        ev["recovered"] = json!(rec.unwrap_or_else(|| "<not found>".into()));
+                    }
+                }
+                ev["wire"] = json!(wire.chars().take(300).collect::<String>());
+            }
+            let expect = match param.as_str() {
+                "url-edit" => format!("file:///cfg/{value}?a=1&b={value}"),
+                "url-delete" => format!("http://h.example/p/{value}?x={value}&y=2"),
+                "subtree-filter" | "edit-fragment" | "copy-fragment" => format!("{value}|{value}"),
+                _ => value.clone(),
+            };
+            ev["expected"] = json!(expect);
+            ev
+        });
+        let mut ev = r.unwrap_or_else(|_| json!({"sent": false, "local": "panic"}));
+        ev["ev"] = json!("c10");
+        ev["case"] = json!(k);
+        ev["param"] = json!(param);
+        ev["classes"] = json!(classes);
+        writeln!(out, "{ev}").unwrap();
+    }
+}
+
 fn main() {
     let args: Vec<String> = std::env::args().collect();
     std::panic::set_hook(Box::new(|_| {}));
@@ -663,6 +930,8 @@ fn main() {
         Some("c08") => c08(&args[2], args.get(3).map(String::as_str) == Some("quick"), &mut out),
         Some("c09") => c09(&args[2], &args[3], &mut out),
         Some("c12") => c12(&args[2], &mut out),
+        Some("c13") => c13(&args[2], &mut out),
+        Some("c10") => c10(&args[2], &mut out),
         _ => {
             eprintln!("usage: wire c08 <cases.json> [quick] | wire c09 <contents.json> <capsets.json> | wire c12 <cases.json>");
             std::process::exit(2);
